@@ -1,9 +1,8 @@
 /-
-  C04: tie to the source TEXT of `fix.mask_bad_bins` and of the weight formulas in `fix.apply_weights`.
-  `Generated.src_mask_bad_bins` / `Generated.src_weight_*` are re-translated from /repo's Python on every run
+  C04: tie to the source TEXT of `fix.mask_bad_bins`.
+  `Generated.src_mask_bad_bins` is re-translated from /repo's Python on every run
   (harness/extractors/exprs_fixmask.py, reading rules at the top of harness/exprtrans.py); these theorems state that the
-  hand-written model functions are those expressions.  A module of its own: an edit to the mask or to a weight formula
-  breaks exactly these obligations.
+  hand-written model function is that expression.  A module of its own: an edit to the mask breaks exactly these obligations.
 -/
 import CnvVerif.Props.C04
 import CnvVerif.Lemmas.SrcFixMask
@@ -13,28 +12,13 @@ open CnvVerif
 /-- the model's reference filter IS the mask expression of `mask_bad_bins`, read for one row of a reference that has a
     depth column (with or without a gc column) -/
 theorem bad_bin_mask_is_the_source (r : RRow) :
-    badBin r = Generated.src_mask_bad_bins true r.gc.isSome r.log2 r.spread r.depth (r.gc.getD 0) :=
+    badBin r = Generated.src_mask_bad_bins true r.gc.isSome r.depth (r.gc.getD 0) r.log2 r.spread :=
   Src.badBin_is_source r
 
 /-- `mask_bad_bins` on a reference without a depth column = the same mask with every depth 1 (how the correspondence
     run presents such a reference to the model) -/
-theorem mask_without_depth_column (hasGc : Bool) (log2 spread depth gc : Rat) :
-    Generated.src_mask_bad_bins false hasGc log2 spread depth gc = Generated.src_mask_bad_bins true hasGc log2 spread 1 gc :=
-  Src.mask_without_depth_column hasGc log2 spread depth gc
-
-/-- the per-bin weight formula about which `weight_in_range`, `weight_mono_size`, `weight_antitone_spread` are stated
-    IS the composition of the formulas in `apply_weights`: size/variance term, reference-spread term, their 0.9 / 0.1
-    average with a pooled reference, the clip to [epsilon, 1] -/
-theorem weight_formula_is_the_source (pooled : Bool) (spread sq m v : Rat) :
-    weightOf pooled spread sq m v =
-      Generated.src_weight_clip
-        (if pooled then Generated.src_weight_pooled spread (Generated.src_weight_simple_target v sq m)
-         else Generated.src_weight_flat (Generated.src_weight_simple_target v sq m)) Generated.WEIGHT_EPSILON :=
-  Src.weightOf_is_source pooled spread sq m v
-
-/-- on- and off-target bins are weighted by the same size/variance formula -/
-theorem weight_formula_same_for_both_classes (v sq m : Rat) :
-    Generated.src_weight_simple_antitarget v sq m = Generated.src_weight_simple_target v sq m :=
-  Src.simple_weight_same_for_both_classes v sq m
+theorem mask_without_depth_column (hasGc : Bool) (depth gc log2 spread : Rat) :
+    Generated.src_mask_bad_bins false hasGc depth gc log2 spread = Generated.src_mask_bad_bins true hasGc 1 gc log2 spread :=
+  Src.mask_without_depth_column hasGc depth gc log2 spread
 
 end CnvVerif.C04
